@@ -161,6 +161,9 @@ def one(run, impl, model, wd, name, crc, ops, ib):
     fb = W.fields(outb[0]) if outb and outb[0].startswith("bkp") else {}
     real_img = W.masked_image_crc(open(os.path.join(d, "bkp"), "rb").read())
     res["stage_model"] = None
+    # C08_backup_image_is_snapshot evaluated on this run by the model (hypotheses: no growth / COPY among the writers'
+    # calls): n/a, ok or fail
+    res["snapshot_theorem"] = fb.get("snap")
     if inside_marker and not writer_in_time:
         res.pop("stage_model", None)      # the writer outlived the 300 ms wait: where its calls fall is not known
     elif not grew and fb.get("image") != real_img:
@@ -392,6 +395,11 @@ def check(run):
                         print("STAGE", h, crc, " ".join(ops)[:300])
             elif "stage_model" in res:
                 run.dist("stage_model_ok")
+            if res.get("snapshot_theorem"):
+                run.dist("snapshot_theorem_instance_%s" % {"ok": "conclusion_ok", "n/a": "na_growth_among_writer_calls"}.get(res["snapshot_theorem"], "fails"))
+                if res["snapshot_theorem"] not in ("ok", "n/a") and len(run.broken) < 6:
+                    run.broken.append("C08_backup_image_is_snapshot evaluated on the traced calls of h%d does not hold (%s): the extracted model, "
+                                      "the driver or the proof environment is broken" % (h, res["snapshot_theorem"]))
             if res.get("t2"):
                 if len(run.broken) < 6:
                     run.broken.append("T2 correspondence (Backup) h%d: %s" % (h, res["t2"]))
